@@ -336,9 +336,14 @@ def run_order(ctx, rule="C09.order"):
     run, runc = node_of("self._run_program")
     # the segment variable is whatever is handed to _run_program; the predecessor whatever can_follow receives
     pv = runc.args[0].id if runc.args and isinstance(runc.args[0], ast.Name) else "p"
-    bind, _ = node_of(f"{pv}.bind_params")
-    lock, _ = node_of(f"{pv}.lock")
-    app, _ = node_of("self.run_progs.append")
+    bind, _ = node_of(f"{pv}.bind_params", required=False)
+    lock, _ = node_of(f"{pv}.lock", required=False)
+    app, _ = node_of("self.run_progs.append", required=False)
+    for what, nd_, role_ in (("bind_params", bind, "bind-before-run"), ("lock", lock, "lock-before-run"), ("run_progs.append", app, "append-after-run")):
+        if nd_ is None:
+            ctx.ob(rule, f.site, False, f"BaseEngine._run no longer calls {what} for the program segment it runs", role=role_, line=runc.lineno)
+    if bind is None or lock is None or app is None:
+        return
     comp, _ = node_of(f"{pv}.compile")
     _, folc = node_of(f"{pv}.can_follow")
     prevv = folc.args[0].id if folc.args and isinstance(folc.args[0], ast.Name) else "prev"
